@@ -39,7 +39,7 @@ type Step struct {
 	Arg     int    `json:"arg,omitempty"`
 	Torn    bool   `json:"torn,omitempty"`
 	FromEnd bool   `json:"from_end,omitempty"` // crash/fserr: Arg counts back from the number of cache operations of the previous build
-	Target  string `json:"target,omitempty"`   // crash: die just before publishing the "manifest" or the "archive" of package Pkg
+	Target  string `json:"target,omitempty"`   // crash: die just before publishing the "manifest" or the "archive" of package Pkg; fserr: fail the "archive-write", "archive-close" or "manifest-write" of package Pkg
 }
 
 type Scenario struct {
@@ -90,6 +90,9 @@ func battery(clock string, embed bool) *Scenario {
 		{K: "tag"}, b,
 		{K: "edit-src-same", Pkg: 2}, {K: "crash", Pkg: 2, Target: "archive"}, b,
 		{K: "noop"},
+		{K: "edit-c", Pkg: 2, Arg: 0}, {K: "fserr", Pkg: 2, Target: "archive-write"}, b, // disk full while the archive is copied into the cache
+		{K: "edit-src", Pkg: 1}, {K: "fserr", Pkg: 1, Target: "archive-close"}, b,
+		{K: "edit-src-same", Pkg: 3}, {K: "fserr", Pkg: 3, Target: "manifest-write"}, b,
 		{K: "abi", Arg: 1}, b,
 	}
 	if embed {
@@ -189,7 +192,11 @@ func (prop) Generate(rng *sim.Rng, tier string, runIndex int) driver.Scenario {
 				sc.Steps = append(sc.Steps, Step{K: []string{"crash", "fserr"}[rng.Intn(2)], Arg: rng.Range(0, 30), Torn: rng.Intn(3) == 0, FromEnd: true})
 			} else if rng.Intn(4) == 0 && strings.HasPrefix(st.K, "edit") {
 				// the build dies between publishing the edited package's archive and its manifest (or just before the archive)
-				sc.Steps = append(sc.Steps, Step{K: "crash", Pkg: st.Pkg, Target: []string{"manifest", "manifest", "archive"}[rng.Intn(3)]})
+				if rng.Bool() {
+					sc.Steps = append(sc.Steps, Step{K: "crash", Pkg: st.Pkg, Target: []string{"manifest", "manifest", "archive"}[rng.Intn(3)]})
+				} else {
+					sc.Steps = append(sc.Steps, Step{K: "fserr", Pkg: st.Pkg, Target: []string{"archive-write", "archive-close", "manifest-write"}[rng.Intn(3)]})
+				}
 			}
 			sc.Steps = append(sc.Steps, Step{K: "build"})
 		} else if st.K == "crash" || st.K == "fserr" || st.K == "clear" {
@@ -421,8 +428,12 @@ func (w *world) build(crashAt int, fserr int, torn bool, match ...string) buildR
 	if anyEmbed {
 		args = append(args, "-O0") // LLVM 14 cannot optimise the packages embed pulls in
 	}
+	// a first tag that selects nothing is always present, so that the interesting
+	// tag is the last of several
 	if w.tag {
-		args = append(args, "-tags", "alt")
+		args = append(args, "-tags", "verifbase,alt")
+	} else {
+		args = append(args, "-tags", "verifbase")
 	}
 	args = append(args, "-abi", strconv.Itoa(w.abi))
 	var xs []string
@@ -446,7 +457,11 @@ func (w *world) build(crashAt int, fserr int, torn bool, match ...string) buildR
 		"GOTOOLCHAIN=local", "GOFLAGS=-mod=mod", "GOPROXY=off", "GOWORK=off", "XDG_CACHE_HOME=" + w.cache, "VERIF_OPLOG=" + oplog,
 		"GOCACHE=" + goEnv("GOCACHE"), "GOMODCACHE=" + goEnv("GOMODCACHE")}
 	if len(match) > 0 && match[0] != "" {
-		cmd.Env = append(cmd.Env, "VERIF_CRASH_MATCH="+match[0])
+		if strings.HasPrefix(match[0], "fserr:") {
+			cmd.Env = append(cmd.Env, "VERIF_FSERR_MATCH="+strings.TrimPrefix(match[0], "fserr:"))
+		} else {
+			cmd.Env = append(cmd.Env, "VERIF_CRASH_MATCH="+match[0])
+		}
 	}
 	if crashAt > 0 {
 		cmd.Env = append(cmd.Env, "VERIF_CRASH_AT="+strconv.Itoa(crashAt))
@@ -622,6 +637,11 @@ func (prop) Run(scx driver.Scenario, ch *sim.Choices, keep bool) *driver.Result 
 				match = "rename|/c13mod/" + sc.Pkgs[pendingFault.Pkg].Name + "/|" + suffix
 				crashAt = 0
 			}
+			if pendingFault.K == "fserr" && pendingFault.Target != "" {
+				m := map[string]string{"archive-write": "write|%s|.a.tmp-", "archive-close": "close|%s|.a.tmp-", "manifest-write": "write|%s|manifest-"}[pendingFault.Target]
+				match = "fserr:" + fmt.Sprintf(m, "/c13mod/"+sc.Pkgs[pendingFault.Pkg].Name+"/")
+				fserr = 0
+			}
 			if crashAt > 0 || fserr > 0 || match != "" {
 				r := w.build(crashAt, fserr, pendingFault.Torn, match)
 				builds++
@@ -643,6 +663,13 @@ func (prop) Run(scx driver.Scenario, ch *sim.Choices, keep bool) *driver.Result 
 				} else if !r.ok {
 					res.Faults["disk-error-during-build"]++
 					w.logf("step %d: build failed on injected disk error at cache operation %d", si, fserr)
+				} else if strings.HasPrefix(match, "fserr:") && strings.Contains(r.buildLog, "failed to save cache") {
+					res.Faults["disk-error-during-build"]++
+					res.Probes["disk-error-targeted-"+pendingFault.Target]++
+					w.logf("step %d: injected disk error while publishing (%s); llgo warned and went on", si, pendingFault.Target)
+					if r.output != w.expected() {
+						viol, detail = "stale-output", fmt.Sprintf("step %d: program output after the build differs from what the sources prescribe:\n got: %q\nwant: %q", si, r.output, w.expected())
+					}
 				} else {
 					w.logf("step %d: fault point %d not reached (build performed %d cache operations)", si, crashAt+fserr, len(r.ops))
 					if r.output != w.expected() {
@@ -659,16 +686,21 @@ func (prop) Run(scx driver.Scenario, ch *sim.Choices, keep bool) *driver.Result 
 			builds++
 			mix(r.output)
 			if !r.ok {
-				if afterFault {
-					res.Obs = append(res.Obs, "a build after an interrupted build fails (cache debris blocks the build)")
-					w.logf("step %d: build fails after an interrupted build: %s", si, lastLines(r.buildLog, 3))
-					// not a stale result; clear the cache so that the history can go on
-					os.RemoveAll(filepath.Join(w.cache, "llgo", "build"))
-					exec.Command("cp", "-al", filepath.Join(warmDir, "llgo", "build"), filepath.Join(w.cache, "llgo", "build")).Run()
-					afterFault = false
-					continue
+				// the property's own oracle: does a clean build (cache back to the warm template) succeed?
+				w.logf("step %d: build fails: %s", si, lastLines(r.buildLog, 3))
+				os.RemoveAll(filepath.Join(w.cache, "llgo", "build"))
+				exec.Command("cp", "-al", filepath.Join(warmDir, "llgo", "build"), filepath.Join(w.cache, "llgo", "build")).Run()
+				r2 := w.build(0, 0, false)
+				builds++
+				if r2.ok {
+					viol, detail = "cached-build-fails", fmt.Sprintf("step %d: the build that reused the cache failed (%s) although a clean build of the same sources succeeds: an entry left by an interrupted or failed build was trusted", si, lastLines(r.buildLog, 2))
+					tags = append(tags, "clock:"+sc.Clock)
+					if afterFault {
+						tags = append(tags, "after-injected-fault")
+					}
+					break
 				}
-				viol, detail = "infra-build-failed", fmt.Sprintf("step %d: llgo build failed without any injected fault: %s", si, lastLines(r.buildLog, 6))
+				viol, detail = "infra-build-failed", fmt.Sprintf("step %d: llgo build fails also with a clean cache: %s", si, lastLines(r2.buildLog, 6))
 				break
 			}
 			want := w.expected()
